@@ -28,5 +28,11 @@ theorem C09_gen_poolQueuePuts : Generated.poolQueuePuts = some queuePutsSpec := 
 /-- The arguments of a task travel untouched from `enqueue(method, *args, **kwargs)` to the call `method(*args, **kwargs)`:
     no keyword is intercepted, no container rebound or mutated (the model's tasks are opaque identities). -/
 theorem C09_gen_poolTaskArgsForwarded : Generated.poolTaskArgsForwarded = some taskArgsForwardedSpec := by decide
+/-- The handler of `__run` around `future.execute` hands the caught exception to the logger as a lazy argument and
+    evaluates nothing of it (no f-string / `.format` / `%` / `str` / `repr` / `.args` / truth value / `==`): whatever the
+    special methods of the task's exception object do, the handler cannot raise and the worker goes on to `task_done`
+    (the model's `task.end:exc → fut.set → queue.task_done` path has no failure branch and exceptions are opaque
+    identities in it). -/
+theorem C09_gen_poolRunLogsExcOpaque : Generated.poolRunLogsExcOpaque = some true := by decide
 
 end JRV.Props
